@@ -2,7 +2,7 @@
    kind = property*100 + sub-model.  [run] = what the model says the implementation must
    output on this input; [mon] = the property's monitor applied to the implementation's own
    observed output. *)
-From RainV Require Import Lib Tier Geometry SectionIO Meta Paths Wire Stree AddrList Cache Tracker Announcer Picker Ram InfoDl Magnet Admission PieceDl Leech MetaSess Life Registry Resume Priv.
+From RainV Require Import Lib Tier Geometry SectionIO Meta Paths Wire Stree AddrList Cache Tracker Announcer Picker Ram InfoDl Magnet Admission PieceDl Leech MetaSess Life Registry Resume Priv Mse.
 
 Definition run (kind : Z) (inp : list Z) : list Z :=
   match kind with
@@ -40,6 +40,10 @@ Definition run (kind : Z) (inp : list Z) : list Z :=
   | 1601 => run_tier true inp
   | 1602 => run_udp_parse inp
   | 1603 => run_http_parse inp
+  | 1201 => run_mse_honest inp
+  | 1202 => run_mse_responder inp
+  | 1203 => run_mse_initiator inp
+  | 1204 => run_enc_policy inp
   | 1701 => run_ram inp
   | 1901 => run_priv_flag inp
   | 1902 => run_priv true inp
@@ -84,6 +88,10 @@ Definition mon (kind : Z) (inp obs : list Z) : bool :=
   | 1601 => mon_tier inp obs
   | 1602 => mon_udp_parse inp obs
   | 1603 => mon_http_parse inp obs
+  | 1201 => list_eqb_Z (run_mse_honest inp) obs
+  | 1202 => list_eqb_Z (run_mse_responder inp) obs
+  | 1203 => list_eqb_Z (run_mse_initiator inp) obs
+  | 1204 => list_eqb_Z (run_enc_policy inp) obs
   | 1701 => mon_ram inp obs
   | 1801 => mon_blocklist inp obs
   | 1802 => mon_stree inp obs
